@@ -447,6 +447,21 @@ def pots_roles(ctx):
             elif isinstance(n.args[0], ast.Name) and t[0] == 'name':
                 # pots.append(pot)
                 roles.setdefault('pots_list', n.func.value.id)
+        # the same lists built by a comprehension
+        if isinstance(n, ast.Assign) and len(n.targets) == 1 and isinstance(n.targets[0], ast.Name) and isinstance(n.value, ast.ListComp) \
+                and len(n.value.generators) == 1 and not n.value.generators[0].ifs:
+            g = n.value.generators[0]
+            over_players = m.eq(T.norm(g.iter), 'self.player_indices') or m.eq(T.norm(g.iter), 'range(self.player_count)')
+            if over_players and isinstance(g.target, ast.Name):
+                elt = T.norm(n.value.elt, {g.target.id: ('name', 'i')})
+                if elt == T.spec('-self.payoffs[i] - self.bets[i]'):
+                    roles['contrib'] = n.targets[0].id
+                    roles['contrib_append'] = n
+                elif elt == T.spec('-self.payoffs[i]'):
+                    roles['pending'] = n.targets[0].id
+            elif m.eq(T.norm(g.iter), 'self.payoffs') and isinstance(g.target, ast.Name) \
+                    and T.norm(n.value.elt) == T.neg(('name', g.target.id)):
+                roles['pending'] = n.targets[0].id
         if isinstance(n, ast.Call) and self_attr(n.func) == 'rake' and len(n.args) == 2 and isinstance(n.args[0], ast.Name):
             roles['amount'] = n.args[0].id
             roles['rake_call'] = n
